@@ -167,8 +167,13 @@ def _run_exec(run_one, cfg, prefix, expect):
         root.addHandler(h)
         root.setLevel(logging.DEBUG)
         logging.disable(logging.NOTSET)
+        import warnings
         try:
-            obs = run_one(ctl, cfg)
+            # ... and in a host that turns the warnings a library may emit into errors (-W error, pytest filterwarnings=error)
+            with warnings.catch_warnings():
+                for cat in (DeprecationWarning, PendingDeprecationWarning, FutureWarning, UserWarning):
+                    warnings.simplefilter("error", cat)
+                obs = run_one(ctl, cfg)
         finally:
             logging.disable(old_disable)
             root.setLevel(old_level)
